@@ -12,6 +12,28 @@ use serde::{Deserialize, Serialize};
 use serde_json::{json, Value};
 use vh::rng::Rng;
 
+
+/// A body source that, like a file or a socket, hands its content over a few bytes per read: a reader of
+/// known or unknown length need not deliver everything in one `read`.
+pub struct Pieces { data: Vec<u8>, pos: usize, step: usize }
+impl Pieces {
+    pub fn new(data: Vec<u8>) -> Self { let step = 1 + data.len() / 3; Pieces { data, pos: 0, step } }
+}
+impl futures::io::AsyncRead for Pieces {
+    fn poll_read(mut self: std::pin::Pin<&mut Self>, _cx: &mut std::task::Context<'_>, buf: &mut [u8]) -> std::task::Poll<std::io::Result<usize>> {
+        let n = buf.len().min(self.step).min(self.data.len() - self.pos);
+        let p = self.pos; buf[..n].copy_from_slice(&self.data[p..p + n]); self.pos += n;
+        std::task::Poll::Ready(Ok(n))
+    }
+}
+impl futures::io::AsyncBufRead for Pieces {
+    fn poll_fill_buf(self: std::pin::Pin<&mut Self>, _cx: &mut std::task::Context<'_>) -> std::task::Poll<std::io::Result<&[u8]>> {
+        let this = self.get_mut(); let n = this.step.min(this.data.len() - this.pos);
+        std::task::Poll::Ready(Ok(&this.data[this.pos..this.pos + n]))
+    }
+    fn consume(mut self: std::pin::Pin<&mut Self>, amt: usize) { self.pos += amt; }
+}
+
 // ------------------------------------------------------------------ description language
 #[derive(Serialize, Deserialize, Clone, Debug, PartialEq)]
 pub struct Desc {
@@ -253,8 +275,8 @@ macro_rules! apply_builder {
                 "into_str" => Ok(b.body(std::str::from_utf8(&$crate::desc::unhex(h)).unwrap())),
                 "into_vec" => Ok(b.body($crate::desc::unhex(h))),
                 "into_value" => Ok(b.body(json.clone().unwrap_or(serde_json::Value::Null))),
-                "reader_none" => Ok(b.body(crux_http::http::Body::from_reader(futures::io::Cursor::new($crate::desc::unhex(h)), None))),
-                "reader_len" => { let v = $crate::desc::unhex(h); let n = v.len(); Ok(b.body(crux_http::http::Body::from_reader(futures::io::Cursor::new(v), Some(n)))) }
+                "reader_none" => Ok(b.body(crux_http::http::Body::from_reader($crate::desc::Pieces::new($crate::desc::unhex(h)), None))),
+                "reader_len" => { let v = $crate::desc::unhex(h); let n = v.len(); Ok(b.body(crux_http::http::Body::from_reader($crate::desc::Pieces::new(v), Some(n)))) }
                 "empty" => Ok(b.body(crux_http::http::Body::empty())),
                 "json_bad" => b.body_json(&$crate::desc::BadJson).map_err(|e| e.to_string()),
                 _ => b.body_form(&vec![vec![1u8]]).map_err(|e| e.to_string()),
@@ -296,8 +318,8 @@ pub fn apply_request(r: &mut crux_http::Request, op: &Op) -> Result<(), String> 
             "into_str" => { r.set_body(std::str::from_utf8(&unhex(h)).unwrap()); Ok(()) }
             "into_vec" => { r.set_body(unhex(h)); Ok(()) }
             "into_value" => { r.set_body(json.clone().unwrap_or(serde_json::Value::Null)); Ok(()) }
-            "reader_none" => { r.set_body(Body::from_reader(futures::io::Cursor::new(unhex(h)), None)); Ok(()) }
-            "reader_len" => { let v = unhex(h); let n = v.len(); r.set_body(Body::from_reader(futures::io::Cursor::new(v), Some(n))); Ok(()) }
+            "reader_none" => { r.set_body(Body::from_reader(Pieces::new(unhex(h)), None)); Ok(()) }
+            "reader_len" => { let v = unhex(h); let n = v.len(); r.set_body(Body::from_reader(Pieces::new(v), Some(n))); Ok(()) }
             "empty" => { r.set_body(Body::empty()); Ok(()) }
             "json_bad" => r.body_json(&BadJson).map_err(|e| e.to_string()),
             _ => r.body_form(&vec![vec![1u8]]).map_err(|e| e.to_string()),
